@@ -63,7 +63,7 @@ def check(run):
         if r.get("compression") == "none" or not (r.get("flags", 0) & 1):
             cases.append((r["id"] + ":blen", "match uncompressed_body_length the_msg_codec (f_Header %s) (f_Body %s) with Ok n => Z.eqb n %d | Err => false end" % (
                 r["frame"], r["frame"], r["body_len_emitted"])))
-    if cases and pr["ok"]:
+    if cases and fc.can_eval(pr):
         mism, cerr = fc.eval_cases("Cases_C03", fc.FRAME_PRELUDE, cases)
         if cerr:
             broken.append(cerr)
